@@ -19,4 +19,6 @@ EXTRAS = [
     lambda rep, fb, tier: pyrules.rule_py_borrowed(rep, ["_util.py", "_connect/_numpy.py", "highlevel.py", "behaviors/string.py", "operations/structure.py"], floor=10),
     lambda rep, fb, tier: pyrules.rule_py_dispatch(rep, modules=["_util.py", "_connect/_numpy.py"], floor=5),
     lambda rep, fb, tier: pyrules.rule_py_categories(rep),
+    lambda rep, fb, tier: __import__("vf.rules.methodrules", fromlist=["x"]).rule_broadcast_validated(rep, fb),
+    lambda rep, fb, tier: __import__("vf.rules.origin", fromlist=["x"]).rule_merge_regular(rep, fb),
 ]
